@@ -132,6 +132,24 @@ func init() {
 				// covered by the tx root), ErrCheckTxHash, ErrTxDup.  Each must be tested for on the
 				// way to the errLog store, i.e. assuming the error IS that sentinel the store is dead.
 				rec := r.Fn(bcp + "IsRecordFaultErr")
+				// fast-download blocks: whatever the error, the node is forgotten (never remembered with an error),
+				// so that the block can be fetched again in normal mode
+				core.UnreachableUnder{Fn: cl, Name: "the block came from the fast-download path (pid == \"download\")", Sink: core.StoreSink(r.W, bcp+"blockNode.errLog"), Min: 1,
+					Spec: &core.FlowSpec{Assume: func(c *core.Ctx, e ast.Expr) core.Tri {
+						isDownload := func(c *core.Ctx, x ast.Expr) bool {
+							tv, ok := c.Info.Types[x]
+							return ok && tv.Value != nil && tv.Value.ExactString() == `"download"`
+						}
+						if op, ok := core.CmpAtom(c, e, core.Mentions(bcp+"blockNode.pid"), isDownload); ok {
+							if op == token.EQL {
+								return core.True
+							}
+							if op == token.NEQ {
+								return core.False
+							}
+						}
+						return core.Unknown
+					}}}.Check(r)
 				for _, s := range []string{"types.ErrSign", "types.ErrCheckTxHash", "types.ErrTxDup"} {
 					so := r.W.LookupObj(s)
 					label := fmt.Sprintf("connectBlock.handleErrBlk does not remember %s on the block-index node", s)
@@ -151,6 +169,43 @@ func init() {
 						r.OK(label, r.W.Pos(f.Node().Pos()), "the sentinel is tested before the error is recorded")
 					} else {
 						r.Fail(label, r.W.Pos(f.Node().Pos()), "the error is recorded (node.errLog) and the node kept in the index whatever the error: a tampered body poisons the header hash, the genuine block is later refused with ErrBlockExist")
+					}
+				}
+			}),
+			rule("R27e", "only main-chain blocks enter the by-hash read cache", 3, func(r *Run) {
+				// The active-block cache is consulted by hash before the database.  A body stored by hash
+				// but never connected (pre-stored, rejected, side chain) must not get in: it would be served
+				// under the hash of the genuine block once that one is connected.
+				mainHash := bsm + "GetBlockHashByHeight"
+				occ := map[string]int{}
+				for _, cs := range r.W.CallSitesOf(core.Names(bsm + "AddActiveBlock")) {
+					if cs.Caller == nil || len(cs.Call.Args) != 2 {
+						continue
+					}
+					f := cs.Caller
+					r.Touch(f)
+					c := f.Ctx()
+					occ[f.Name]++
+					label := fmt.Sprintf("%s: AddActiveBlock #%d caches a main-chain block only", f.Name, occ[f.Name])
+					pos := r.W.Pos(cs.Call.Pos())
+					switch {
+					case core.DerivedFromCall(mainHash)(c, cs.Call.Args[0]):
+						r.OK(label, pos, "the key is the main-chain hash recorded for a height")
+						continue
+					case core.MayBeFromCall(0, bsm+"LoadBlock")(c, cs.Call.Args[1]):
+						if ld := singleDefCall(c, cs.Call.Args[1], 0, bsm+"LoadBlock"); ld != nil && len(ld.Args) == 2 && core.DerivedFromCall(mainHash)(c, ld.Args[1]) {
+							r.OK(label, pos, "the block was loaded through the height index (LoadBlock with the main-chain hash of the height)")
+							continue
+						}
+					}
+					// otherwise the call must sit behind `bytes.Equal(<main-chain hash of the block's height>, <key>)`
+					fl := core.RunFlow(f, &core.FlowSpec{Conds: []core.CondGuard{core.BoolGuard("is-main-chain",
+						core.CallAtomSym("bytes.Equal", core.DerivedFromCall(mainHash), core.AnyExpr), true)}})
+					n := fl.G.NodeContaining(cs.Call.Pos())
+					if n != nil && fl.Live(n) && fl.In[n].Has("is-main-chain") {
+						r.OK(label, pos, "behind bytes.Equal(main-chain hash at the block's height, hash)")
+					} else {
+						r.Fail(label, pos, fmt.Sprintf("`%s` can cache a block that is stored by hash but not connected at its height: a rejected or side-chain body would later be served under that hash", core.ExprStr(cs.Call)))
 					}
 				}
 			}),
